@@ -28,7 +28,7 @@ FAMILY_MODULE = {
     "join": "JoinLike", "try_join": "JoinLike",
     "race": "Race", "race_ok": "Race",
     "merge": "Merge", "zip": "Zip", "chain": "Chain", "wait_until": "WaitUntil",
-    "future_group": "Groups", "stream_group": "Groups", "co": "CoStream",
+    "future_group": "Groups", "stream_group": "Groups", "co": "CoStream", "nest": "Nest",
 }
 # modules whose behaviours leave an order to third-party code (FuturesUnordered): replays are checked by TLC trace
 # validation against the L2 spec instead of an event-by-event comparison with the exported behaviour
@@ -41,7 +41,7 @@ MODULE_CFGS = {
                      live_quick="MC_JoinLike_liveq.cfg", live_thorough="MC_JoinLike_live.cfg",
                      mc="MC_JoinLike.tla"),
 }
-for _m in ("Race", "Merge", "Zip", "Chain", "WaitUntil", "Groups", "CoStream"):
+for _m in ("Race", "Merge", "Zip", "Chain", "WaitUntil", "Groups", "CoStream", "Nest"):
     MODULE_CFGS[_m] = dict(mc_quick="MC_%s_quick.cfg" % _m, mc_thorough="MC_%s_thorough.cfg" % _m,
                            gen_quick="MC_%s_genq.cfg" % _m, gen_thorough="MC_%s_gen.cfg" % _m,
                            live_quick="MC_%s_liveq.cfg" % _m, live_thorough="MC_%s_live.cfg" % _m,
@@ -158,7 +158,7 @@ def containers_for(cfg):
         out = []
         for b in builds:
             for cont in cfg["conts"]:
-                if b == "none" and (cont == "vec" or cfg.get("group")):
+                if b == "none" and (cont == "vec" or cfg.get("group") or fam.startswith("nest")):
                     continue
                 if cont == "tup" and n == 0 and fam not in ("join", "try_join", "merge"):
                     continue
@@ -393,6 +393,8 @@ def run_for_property(prop, tier, seed, plan, env):
         fams = set(plan["fams"])
         if "wait_until" in fams:
             fams.add("wait_until_stream")
+        if "nest" in fams:
+            fams.add("nest_join_join")
         by_build = {}
         pred = {}
         for i, ex in enumerate(exported):
